@@ -705,8 +705,8 @@ mod ree {
         F: FnMut(V::Native, V::Native, usize) -> Result<V::Native, E>,
     {
         let run_ends = array.run_ends();
-        let logical_start = run_ends.offset();
-        let logical_end = run_ends.offset() + run_ends.len();
+        // `sliced_values` yields run ends relative to the logical slice, capped at its length
+        let logical_end = run_ends.len();
         let run_ends = run_ends.sliced_values();
 
         let values_slice = array.run_array().values_slice();
@@ -721,7 +721,7 @@ mod ree {
         let mut has_non_null_value = false;
 
         for (run_end, value) in run_ends.zip(values) {
-            let current_run_end = run_end.as_usize().clamp(logical_start, logical_end);
+            let current_run_end = run_end.as_usize();
             let run_length = current_run_end - prev_end;
 
             if let Some(value) = value {
